@@ -140,6 +140,70 @@ def typed(rep, rule, site, what, expr, want_expr, want_unit, leaves, depends=())
     return False
 
 
+def _ev(e, assign):
+    """Value of a Boolean IR expression under an assignment of atoms; None when an unknown atom decides it."""
+    if e in assign:
+        return assign[e]
+    if e[0] == 'const':
+        return bool(e[1])
+    if e[0] == 'un' and e[1] == 'not':
+        v = _ev(e[2], assign)
+        return None if v is None else not v
+    if e[0] in ('and', 'or'):
+        vs = [_ev(x, assign) for x in e[1]]
+        dom = e[0] == 'or'
+        if any(v is dom for v in vs):
+            return dom
+        return None if any(v is None for v in vs) else (not dom)
+    return None
+
+
+def guard_table(c, gen, ln, atoms, consistent=lambda a: True):
+    """The Boolean function of `atoms` under which the result at line `ln` (path frames `gen`) is produced: its path
+    conditions, strengthened by every assert that is executed before it on the same path (frames a prefix of `gen`).
+    Returns {assignment tuple: True/False/None}; None = decided by something outside the atoms."""
+    frames = [(c.norm(fr[1]), fr[2]) for fr in gen if fr[0] == 'pyif']
+    pre = []
+    for t, g_, l_ in c.t.asserts:
+        af = [(c.norm(fr[1]), fr[2]) for fr in g_ if fr[0] == 'pyif']
+        if l_ < ln and af == frames[:len(af)] and [fr[1] for fr in g_ if fr[0] == 'for'] == [fr[1] for fr in gen if fr[0] == 'for'][:len([1 for fr in g_ if fr[0] == 'for'])]:
+            pre.append(c.norm(t))
+    out = {}
+    import itertools
+    for vals in itertools.product((False, True), repeat=len(atoms)):
+        a = dict(zip(atoms, vals))
+        if not consistent(a):
+            continue
+        r = True
+        for cond, pol in frames:
+            v = _ev(cond, a)
+            v = None if v is None else (v == pol)
+            if v is False:
+                r = False
+                break
+            if v is None:
+                r = None
+        if r is not False:
+            for t in pre:
+                v = _ev(t, a)
+                if v is False:
+                    r = False
+                    break
+                if v is None:
+                    r = None
+        out[vals] = r
+    return out
+
+
+def assert_fails_somewhere(c, atoms, vals):
+    """Under the assignment, some assert is reached (its path conditions hold) and its test is false."""
+    a = dict(zip(atoms, vals))
+    for t, g_, l_ in c.t.asserts:
+        if all(_ev(c.norm(fr[1]), a) is fr[2] for fr in g_ if fr[0] == 'pyif') and _ev(c.norm(t), a) is False:
+            return True
+    return False
+
+
 def translate(rep, idx):
     c = get_fn(idx, "MemoryMap._translate")
     site = c.fi.site
@@ -185,34 +249,43 @@ def all_resources(rep, idx):
     is_res = c.parse("id(obj) in self._resources", env)
     is_win = c.parse("id(obj) in self._windows", env)
     direct, through = [], []
+    atoms = (is_res, is_win)
+    other = []
     for v, frm, gen, ln in c.t.yields:
         v = c.norm(v)
-        conds = [(c.norm(fr[1]), fr[2]) for fr in gen if fr[0] == 'pyif' and c.norm(fr[1]) in (is_res, is_win)]
+        tab = guard_table(c, gen, ln, atoms)
         if v[0] == 'call' and ir.show(v[1]).endswith("ResourceInfo"):
-            direct.append((v, conds, gen))
+            direct.append((v, tab, gen))
         elif v[0] == 'call' and v[1] == c.parse("self._translate"):
-            through.append((v, conds, gen))
+            through.append((v, tab, gen))
+        elif v[0] == 'call' and v[1][0] == 'attr' and v[1][1] == ('name', 'self'):
+            other.append(v)
+            rep.unk("C03.1", site, f"yield {ir.show(v)[:60]}", "the result is built by a helper the walker could not open")
         else:
             rep.bad("C03.1", site, f"yield {ir.show(v)[:60]}", "a result that is neither a local resource nor a translated child resource")
-    ok = len(direct) == 1 and direct[0][1] == [(is_res, True)]
-    rep.check(ok, "C03.3", site, "local resources are reported exactly when the entry is in the resource table",
-              f"direct yields under {[[(ir.show(x), p) for x, p in d[1]] for d in direct]}")
-    ok2 = len(through) == 1 and through[0][1] == [(is_res, False), (is_win, True)]
-    rep.check(ok2, "C03.3", site, "window contents are reported exactly when the entry is in the window table (if / elif: a partition)",
-              f"translated yields under {[[(ir.show(x), p) for x, p in d[1]] for d in through]}")
-    # else: assert False
-    fi = c.fi
-    has_else_assert = any(isinstance(n, ast.If) and n.orelse and isinstance(n.orelse[-1], ast.If) and n.orelse[-1].orelse and
-                          isinstance(n.orelse[-1].orelse[0], ast.Assert) for n in ast.walk(fi.node))
-    rep.check(has_else_assert, "C03.3", site, "an entry in neither table is an internal error (else: assert False)", "no such else branch",
-              nontrivial=False)
+
+    def shows(tab):
+        return sorted(("res" if k[0] else "-") + "/" + ("win" if k[1] else "-") for k, v_ in tab.items() if v_ is not False)
+    want_d = {(False, False): False, (False, True): False, (True, False): True, (True, True): True}
+    want_t = {(False, False): False, (False, True): True, (True, False): False, (True, True): False}
+    ok = len(direct) == 1 and direct[0][1] == want_d
+    und = other or any(None in t[1].values() for t in direct + through)
+    rep.form(ok, "C03.3", site, "local resources are reported exactly when the entry is in the resource table",
+             f"direct yields under {[shows(d_[1]) for d_ in direct]}", wrong=None if und else "the guard of the local-resource result is not `entry is in the resource table`")
+    ok2 = len(through) == 1 and through[0][1] == want_t
+    rep.form(ok2, "C03.3", site, "window contents are reported exactly when the entry is in the window table and not in the resource table (a partition)",
+             f"translated yields under {[shows(d_[1]) for d_ in through]}",
+             wrong=None if und else "the guard of the window-contents result is not `entry is in the window table` (and not a resource)")
+    # an entry in neither table is an internal error
+    rep.check(assert_fails_somewhere(c, atoms, (False, False)), "C03.3", site, "an entry in neither table is an internal error (a failing assert)",
+              "no assert fails for an entry that is in neither table", nontrivial=False)
     if ok:
         v = direct[0][0]
         want = c.parse("ResourceInfo(obj, (self._resources[id(obj)][1],), rng.start, rng.stop, self.data_width)", env)
         rep.form(v == want, "C03.1", site, "a local resource is reported with its own name, its stored range and the map's data width",
                  f"yields {ir.show(v)[:140]}", wrong=direct_wrong(c, v, obj, rng))
     if ok2:
-        v, conds, gen = through[0]
+        v, tab_, gen = through[0]
         inner = [fr[1] for fr in gen if fr[0] == 'for' and fr[1] != L.id]
         child_ok = len(inner) == 1 and c.norm(c.t.loops[inner[0]].iter) == c.parse("obj.all_resources()", env)
         rep.check(child_ok, "C03.3", site, "children are taken from the window's own all_resources(), in its order",
@@ -253,6 +326,17 @@ def translate_wrong(v, child, window, rng):
     return None
 
 
+def table_arity(cls, table):
+    """Length of the tuples stored in self.<table>[...] (None unless every store is a tuple display of one length)."""
+    ns = set()
+    for fs in cls.methods.values():
+        for f in fs:
+            for n in ast.walk(f.node):
+                if isinstance(n, ast.Assign) and len(n.targets) == 1 and isinstance(n.targets[0], ast.Subscript) and \
+                        ast.unparse(n.targets[0].value) == f"self.{table}":
+                    ns.add(len(n.value.elts) if isinstance(n.value, ast.Tuple) else None)
+    return ns.pop() if len(ns) == 1 else None
+
 def find_resource(rep, idx):
     c = get_fn(idx, "MemoryMap.find_resource", no_inline=("_translate",))
     site = c.fi.site
@@ -263,7 +347,14 @@ def find_resource(rep, idx):
     own = c.parse("id(resource) in self._resources")
     ok = len(direct) == 1 and [(c.norm(fr[1]), fr[2]) for fr in direct[0][1] if fr[0] == 'pyif'] == [(own, True)]
     order_ok = True
-    rep.check(ok, "C03.4", site, "the map's own table is consulted first", f"{len(direct)} direct result(s)")
+    helper_rets = [r for r in rets if r not in direct and r not in through and r[0][0] == 'call' and r[0][1][0] == 'attr' and
+                   r[0][1][1] == ('name', 'self') and [(c.norm(fr[1]), fr[2]) for fr in r[1] if fr[0] == 'pyif'] == [(own, True)]]
+    if not direct and len(helper_rets) == 1:
+        rep.ok("C03.4", site, "the map's own table is consulted first", f"returns {ir.show(helper_rets[0][0])[:80]} under `id(resource) in self._resources`")
+        rep.unk("C03.1", site, "an own resource is reported with its own name, its stored range and the map's data width",
+                f"the result is built by {ir.show(helper_rets[0][0])[:80]}, which the walker could not open (starred argument)")
+    else:
+        rep.check(ok, "C03.4", site, "the map's own table is consulted first", f"{len(direct)} direct result(s)")
     if ok:
         want = c.parse("ResourceInfo(resource, (self._resources[id(resource)][1],), self._resources[id(resource)][2].start, "
                        "self._resources[id(resource)][2].stop, self.data_width)")
@@ -283,6 +374,9 @@ def find_resource(rep, idx):
     if lok:
         Lw = loops[0]
         w, wn, wr = ('item', Lw, (0,)), ('item', Lw, (1,)), ('item', Lw, (2,))
+        # _translate(info, *record): the records of the window table are (window, name, range) triples wherever they are stored
+        if v[0] == 'call' and len(v[2]) == 2 and v[2][1] == ('star', ('item', Lw, ())) and table_arity(c.fi.cls, "_windows") == 3:
+            v = (v[0], v[1], (v[2][0], w, wn, wr), v[3])
         want = c.norm(('call', c.parse("self._translate"),
                        (('call', ('attr', w, 'find_resource'), (('name', 'resource'),), ()), w, wn, wr), ()))
         rep.form(v == want, "C03.1", site, "a resource found behind a window is translated with that window, its name and its stored range",
@@ -291,6 +385,8 @@ def find_resource(rep, idx):
     # a miss in one window moves on to the next one
     handlers = [h for n in ast.walk(c.fi.node) if isinstance(n, ast.Try) for h in n.handlers]
     moves_on = bool(handlers) and all(all(isinstance(s, (ast.Pass, ast.Continue)) for s in h.body) for h in handlers)
+    c.t.unsupported[:] = [(l_, w_) for l_, w_ in c.t.unsupported if not ("Continue" in w_ and any(
+        isinstance(s, ast.Continue) and s.lineno == l_ for h in handlers for s in h.body))]
     rep.check(moves_on, "C03.4", site, "a miss in one window moves on to the next window",
               f"handler bodies: {[ast.unparse(s) for h in handlers for s in h.body]}: the search must not stop at the first window that does "
               "not hold the resource")
@@ -314,19 +410,56 @@ def decode_address(rep, idx):
     env = {"A": A}
     is_res = c.parse("id(A) in self._resources", env)
     is_win = c.parse("id(A) in self._windows", env)
-    rets = [(c.norm(v), [(c.norm(fr[1]), fr[2]) for fr in gen if fr[0] == 'pyif' and c.norm(fr[1]) in (is_res, is_win)])
-            for v, gen, ln in c.t.returns]
-    r1 = [r for r in rets if r[0] == A]
+    is_none = c.norm(c.parse("A is None", env))
+    atoms = (is_none, is_res, is_win)
+
+    def consistent(a):
+        return not (a[is_none] and (a[is_res] or a[is_win]))            # None is in neither table
+    rets = [(c.norm(v), guard_table(c, gen, ln, atoms, consistent)) for v, gen, ln in c.t.returns] + \
+        [(('const', None), guard_table(c, gen, ln, atoms, consistent)) for gen, ln in c.t.bare_returns]
     looped = any(isinstance(n, ast.While) for n in ast.walk(c.fi.node))
-    rep.form(len(r1) == 1 and r1[0][1] == [(is_res, True)], "C03.6", site, "an address inside a resource decodes to that resource",
-             f"{[ (ir.show(v)[:60], [(ir.show(x), p) for x, p in cs]) for v, cs in rets]}",
-             wrong=None if looped or r1 else "no path returns the looked-up assignment itself")
+    und = looped or any(None in t.values() for v, t in rets)
+    if looped:
+        # an iterative descent keeps a cursor map (M = self, then M = <window>); once it has moved, the tables of `self` are
+        # the wrong ones to consult
+        cursors = set()
+        for n in ast.walk(c.fi.node):
+            if isinstance(n, ast.Assign) and len(n.targets) == 1 and isinstance(n.targets[0], ast.Name) and \
+                    isinstance(n.value, ast.Name) and n.value.id == "self":
+                cursors.add(n.targets[0].id)
+        moved = {n.targets[0].id for w in ast.walk(c.fi.node) if isinstance(w, ast.While) for n in ast.walk(w)
+                 if isinstance(n, ast.Assign) and len(n.targets) == 1 and isinstance(n.targets[0], ast.Name) and n.targets[0].id in cursors}
+        for w in ast.walk(c.fi.node):
+            if isinstance(w, ast.While) and moved:
+                stale = [n for n in ast.walk(w) if isinstance(n, ast.Attribute) and isinstance(n.value, ast.Name) and n.value.id == "self" and
+                         n.attr in ("_windows", "_resources", "_ranges")]
+                for n in stale:
+                    rep.bad("C03.6", site, f"self.{n.attr} inside the descent loop", f"the loop walks down with the cursor `{sorted(moved)[0]}`, but this "
+                            f"table is the outer map's: after the first step an assignment of the inner map is looked up in the wrong table "
+                            "(a window nested in a window is not recognised as one)", line=n.lineno)
+
+    def covers(pred):
+        """assignments under which a result satisfying pred is returned"""
+        out = set()
+        for v, t in rets:
+            if pred(v):
+                out |= {k for k, x in t.items() if x}
+        return out
+    gives_A = covers(lambda v: v == A)
+    gives_none = covers(lambda v: v == ('const', None)) | {k for k in gives_A if k[0]}
     r2 = [r for r in rets if r[0][0] == 'call' and r[0][1] == ('attr', A, 'decode_address')]
-    if (len(r2) != 1 or r2[0][1] not in ([(is_res, False), (is_win, True)],)) and looped:
+    gives_rec = covers(lambda v: v[0] == 'call' and v[1] == ('attr', A, 'decode_address'))
+    want_res = {(False, True, False), (False, True, True)}
+    rep.form(gives_A - {k for k in gives_A if k[0]} == want_res, "C03.6", site, "an address inside a resource decodes to that resource",
+             f"the looked-up assignment is returned under {sorted(gives_A)} (none, resource, window)",
+             wrong=None if und or gives_A else "no path returns the looked-up assignment itself")
+    rec_ok = len(r2) == 1 and gives_rec == {(False, False, True)}
+    if not rec_ok and und:
         rep.unk("C03.6", site, "an address inside a window is decoded by the window's map",
-                "the descent into windows is written as a loop; the verified form is the recursive one")
-    elif len(r2) != 1 or r2[0][1] not in ([(is_res, False), (is_win, True)],):
-        rep.bad("C03.6", site, "an address inside a window is decoded by the window's map", "no recursive decode under `elif id(assignment) in self._windows`")
+                "the descent into windows is written as a loop, or is guarded by a condition outside the rule's atoms; the verified form is the recursive one")
+    elif not rec_ok:
+        rep.bad("C03.6", site, "an address inside a window is decoded by the window's map", "no recursive decode exactly when the assignment is a "
+                f"window and not a resource (found under {sorted(gives_rec)})")
     else:
         arg = r2[0][0][2][0] if r2[0][0][2] else None
         R = c.parse("self._windows[id(A)][2]", env)
@@ -338,11 +471,8 @@ def decode_address(rep, idx):
                         "no range start occurs in it; the offset inside a window is counted from where the window was placed; a mask of the address "
                         "equals that only when the start is a multiple of the mask size, which add_window() does not enforce for dense windows "
                         "(they are aligned to their span 2**addr_width / ratio)")])
-    fi = c.fi
-    none_ret = any(isinstance(n, ast.If) and ir.norm(ir.from_ast(n.test, {})) == ir.norm(ir.parse("assignment is None")) and
-                   any(isinstance(s, ast.Return) and (s.value is None or (isinstance(s.value, ast.Constant) and s.value.value is None)) for s in n.body)
-                   for n in ast.walk(fi.node))
-    rep.check(none_ret, "C03.6", site, "an unassigned address decodes to nothing (None)", "no `if assignment is None: return`")
+    rep.form((True, False, False) in gives_none, "C03.6", site, "an unassigned address decodes to nothing (None)",
+             f"None is returned under {sorted(gives_none)}", wrong=None if und else "no path returns None for an address that is not assigned")
 
 
 def window_size(rep, idx):
@@ -372,5 +502,14 @@ def authority(rep, idx):
             if isinstance(n, ast.Call) and ast.unparse(n.func).endswith("ResourceInfo"):
                 sites.append(f.qual)
     want = {"MemoryMap._translate", "MemoryMap.all_resources", "MemoryMap.find_resource"}
-    rep.check(set(sites) == want, "C03.1", "memory.py", "ResourceInfo is built only by _translate and the two local-resource sites",
+    # a private helper that only these three call is part of them
+    for q in sorted(set(sites) - want):
+        cn, _, fn = q.rpartition(".")
+        if cn != "MemoryMap" or not fn.startswith("_"):
+            continue
+        callers = {f.qual for f in idx.all_functions() if f.module.rel == "memory.py" for n in ast.walk(f.node)
+                   if isinstance(n, ast.Attribute) and n.attr == fn and f.qual != q}
+        if callers and callers <= want:
+            sites = [s for s in sites if s != q] + sorted(callers)
+    rep.check(set(sites) <= want and "MemoryMap._translate" in sites and len(set(sites)) >= 2, "C03.1", "memory.py", "ResourceInfo is built only by _translate and the two local-resource sites",
               f"construction sites: {sorted(set(sites))}")
